@@ -165,6 +165,16 @@ type Stream struct {
 	cur     map[colarspb.ArrowPayloadType]string
 	MaxDict int
 	closed  bool
+	// pipelined mode: phase 0 encodes and stores, phase 1 decodes the stored batches
+	pipelined bool
+	phase     int
+	stored    []*storedBatch
+	cursor    int
+}
+
+type storedBatch struct {
+	bar  *colarspb.BatchArrowRecords
+	want []string
 }
 
 func NewStream(o Options, mon Monitors) *Stream {
@@ -230,6 +240,22 @@ func (st *Stream) Step(l Letter) (viol []Violation) {
 			prop = st.mon.RtProp
 		}
 		viol = append(viol, Violation{prop, fmt.Sprintf(format, a...)})
+	}
+	if st.pipelined && st.phase == 1 {
+		if st.cursor >= len(st.stored) {
+			return nil
+		}
+		sb := st.stored[st.cursor]
+		st.cursor++
+		if sb == nil {
+			return nil
+		}
+		st.decodeAndCompare(l, sb.bar, sb.want, add, " (decoded after all later batches had been produced)")
+		return viol
+	}
+	if st.pipelined {
+		// reserve the slot: a failed encode leaves it nil
+		st.stored = append(st.stored, nil)
 	}
 	var want []string
 	var before []byte
@@ -330,6 +356,19 @@ func (st *Stream) Step(l Letter) (viol []Violation) {
 	if !st.mon.Roundtrip {
 		return viol
 	}
+	if st.pipelined {
+		st.stored[len(st.stored)-1] = &storedBatch{bar: bar, want: want}
+		return viol
+	}
+	st.decodeAndCompare(l, bar, want, add, "")
+	return viol
+}
+
+// decodeAndCompare reports through add (which appends to the caller's list).
+func (st *Stream) decodeAndCompare(l Letter, bar *colarspb.BatchArrowRecords, want []string, add func(prop, format string, a ...any), note string) {
+	add0 := add
+	add = func(prop, format string, a ...any) { add0(prop, format+note, a...) }
+	var pan string
 	var got []string
 	var derr error
 	pan = protect(func() {
@@ -355,22 +394,21 @@ func (st *Stream) Step(l Letter) (viol []Violation) {
 		}
 	})
 	if st.mon.OutOfDomain {
-		return viol
+		return
 	}
 	if pan != "" {
 		add(rtProp(l.Sig), "consumer panicked on a well-formed batch: %s", firstLine(pan))
 		add("C07", "consumer panicked on a well-formed batch: %s", pan)
-		return viol
+		return
 	}
 	if derr != nil {
 		add(rtProp(l.Sig), "consumer rejected a well-formed batch: %v", derr)
-		return viol
+		return
 	}
 	sort.Strings(got)
 	if d := diffCanon(want, got); d != "" {
 		add(rtProp(l.Sig), "decoded telemetry differs from encoded: %s", d)
 	}
-	return viol
 }
 
 func firstLine(s string) string {
